@@ -78,6 +78,19 @@ Theorem C11_call_own_steps : forall s l s' c, step s l = Some s' ->
 Proof. exact call_own_steps. Qed.
 Print Assumptions C11_call_own_steps.
 
+(* MakeHandler registers the handler whatever the number of handlers already live: the table
+   has no bound, the slot returned holds the new handler *)
+Theorem C11_always_registered : forall tb o, nth_error (fst (alloc tb o)) (snd (alloc tb o)) = Some (Some o).
+Proof. exact alloc_slot. Qed.
+Print Assumptions C11_always_registered.
+
+(* the reader never waits inside dispatch, lost connection or not: the Error message dispatch
+   writes for a Call that found a full queue is part of the step, its result is discarded *)
+Theorem C11_dispatch_never_waits : forall s m, panicked s = false -> proc s = PHave m ->
+  exists s', step s LDispatch = Some s' /\ proc s' = PRead.
+Proof. exact dispatch_enabled. Qed.
+Print Assumptions C11_dispatch_never_waits.
+
 (* the hypotheses are met by a concrete run: two calls, one subscription, one callback; the reply
    to call 0 is dispatched before either Send has returned (early reply), an event is queued, the
    connection dies; afterwards call 0 has its reply, call 1 an error, the events channel is closed
